@@ -99,22 +99,6 @@ func VH_C07_expirePreservesInvariant() bool {
 // ---- retransmission machinery (timers are modelled: time.AfterFunc captures the callback,
 // vFireTimer runs it as the runtime would on expiry, vTimerLastReset observes the last Reset)
 
-type vCtxC struct {
-	done chan struct{}
-	err  error
-}
-
-func (c vCtxC) Deadline() (time.Time, bool) { return time.Time{}, false }
-func (c vCtxC) Done() <-chan struct{}       { return c.done }
-func (c vCtxC) Err() error                  { return c.err }
-func (c vCtxC) Value(key any) any           { return nil }
-
-func vCancelledCtx() vCtxC {
-	d := make(chan struct{})
-	close(d)
-	return vCtxC{done: d, err: vErrDecrypt}
-}
-
 // verif: replay=none cover=rearmed,one-shot bounds="p2pke.Timer: a pending timer that fires runs its callback once; a callback that re-arms its own timer leaves it pending and it fires again; a stopped timer does nothing"
 func VH_C07_timerRearmFromCallback() bool {
 	calls := 0
